@@ -46,6 +46,13 @@ def check_C17(run):
     sym = [V.apalache(run.scratch, "VarintInt", inv) for inv in ("InvZig", "InvTen", "InvLen")]
     out, meta = run.drive("C17")
     total, rejected, states, _ = V.judge(run.scratch, "Trace_Prim", out)
+    # ReadBuf / WriteBuf call sequences against their state-machine specification (beyond the listed property)
+    out2, meta2 = run.drive("BUF")
+    total2, rejected2, states2, _ = V.judge(run.scratch, "Trace_Buffers", out2)
+    for r in rejected2:
+        r["shard"] = "../out-BUF/" + r["shard"]
+    rejected = rejected + rejected2
+    total, states = total + total2, states + states2
     cov = std_cov(run, meta, total, states,
                   "one event per (codec, value) write+read-back or (codec, byte string) read; keys are codec|class where class is the varint length or boundary family; "
                   "distinct_nontrivial counts distinct keys",
